@@ -43,7 +43,7 @@ RULE = ('one evaluation = one explored path of check_proof over a skeleton (a se
         'non-trivial = the skeleton has a citation or a stated sequent')
 EXPLANATION = ('identifiers and citations are z3 integers flowing through can_depend_on / find_item; acceptance on a path is checked against the reference '
                're-checker under the path condition, and validity of the accepted sequent is decided by z3 (propositional/HOL encoding)')
-BUDGET_S = {'quick': 240, 'thorough': 1500}
+BUDGET_S = {'quick': 240, 'thorough': 900}
 
 STATED = ['none', 'false', 'p|-p', '|-p', '|-p-->p']
 RULES = ['assume_p', 'assume_q', 'implies_intr_p', 'implies_elim', 'ident', 'sorry', 'empty', 'subproof', 'm_sorry', 'm_two']
